@@ -102,3 +102,42 @@ def c16(c):
     c.extra['exhaustive_box'] = 'total 0..512 x world 1..64 x all ranks enumerated completely for discard_before/discard_after'
     for k in ('triples_checked', 'exhaustive_box_pairs', 'seeded_pairs', 'shim_runs', 'rank_shares_observed', 'shim_collectives'):
         c.require(k)
+
+
+def _t_eng_variants(nsets):
+    v = []
+    for tn, td in T_VARIANTS:
+        for s in range(nsets):
+            v.append(('%s.e%d' % (tn, s), td + ['-DVF_ENGSET=%d' % s]))
+    return v
+
+
+@prop('C10',
+      rule="case = one run of hep::plain / vegas (uniform or random user grid) / multi_channel (weights with zeros) with a CountingEngine around "
+           "one of the nine standard engines (started at a random stream offset), dims 1..5, 1..3 iterations with calls in {0,1,7,13,100}, "
+           "integrand value pattern in {finite, zero, NaN-mixed, +-inf, mixed}; the integrand reads the raw-draw counter at every invocation. "
+           "Plus 128 synthetic engines with ranges 2^j, 2^j+1, 2^j-1, offset (j in 1..63), 2^64 and decimal ranges: measured cost of one canonical "
+           "number vs hep::random_number_usage, and a PLAIN run. distinct = (engine, T, integrator, dims, calls, pattern); all are non-trivial.",
+      assumptions=["the cost k of one canonical number is MEASURED on the running standard library (one generate_canonical on a counting engine), then compared with the library's predictor",
+                   "engines are the nine standard ones and the listed synthetic ranges; other user engines are not explored"])
+def c10(c):
+    c.std([dict(src='c10_draws.cpp', build='asan', variants=_t_eng_variants(4), shards={'quick': 1, 'thorough': 2})])
+    for k in ('engine_type_pairs_checked', 'synthetic_ranges_checked', 'calls_checked', 'runs', 'runs_with_k>=2'):
+        c.require(k)
+
+
+@prop('C14',
+      rule="case = one hep::plain_iteration whose integrand returns a value sequence scripted by call ordinal (one-large-then-small(eps/4), "
+           "alternating cancellation, geometric decay, random magnitudes over 20 decades, 2^digits then all ones, small negatives after a large "
+           "value, random signs with outliers), N in {1,2,3,10,1e3,1e5} or up to 1e6 (quick) / 1e7 (thorough), with or without a 1-d "
+           "distribution of 1..4 unit-width bins fed by a second adversarial sequence per bin; |sum - exact| <= (4+4*N*eps)*eps*sum|v| with "
+           "the exact sum from a Shewchuk expansion. non-trivial = a sequence on which naive summation (computed alongside in T) breaks the "
+           "same bound; distinct = (T, sequence kind, N, scale, distribution).",
+      assumptions=["bound = Kahan's 2*eps + O(N*eps^2) with margin: (4 + 4*N*eps_T)*eps_T*sum|v_i|",
+                   "ExactSum (Shewchuk expansion in x87 long double, self-tested) is the trusted base; the sum of squares is not part of the property",
+                   "only PLAIN with weight 1 is driven (the accumulator is shared by all integrators)"])
+def c14(c):
+    c.std([dict(src='c14_sums.cpp', build='plain', shards={'quick': 5, 'thorough': 5}),
+           dict(src='c14_sums.cpp', build='asan', shards={'quick': 2, 'thorough': 5}, defs=['-DVF_SMALL_N'])])
+    for k in ('values_summed', 'bins_checked', 'sequences_where_naive_summation_breaks_bound', 'runs_with_N>=1e6'):
+        c.require(k)
